@@ -328,3 +328,27 @@ func ModelWithCancel(parent context.Context) (context.Context, context.CancelFun
 	}
 	return c, func() { c.cancel(context.Canceled) }
 }
+
+// ---- engine models of timers (natively the real time package is used; these are never called) ----
+
+// ArmTimer registers ch with the engine's logical clock: it receives a tick after d (periodically if
+// periodic). Logical time only advances when every goroutine is blocked.
+func ArmTimer(ch chan time.Time, d int64, periodic bool) {}
+
+// SelectAny makes the engine explore every ready case of a select statement (Go picks one at random).
+func SelectAny() {}
+
+func ModelNewTimer(d time.Duration) *time.Timer {
+	ch := make(chan time.Time, 1)
+	ArmTimer(ch, int64(d), false)
+	return &time.Timer{C: ch}
+}
+
+func ModelNewTicker(d time.Duration) *time.Ticker {
+	ch := make(chan time.Time, 1)
+	ArmTimer(ch, int64(d), true)
+	return &time.Ticker{C: ch}
+}
+
+func ModelAfter(d time.Duration) <-chan time.Time { return ModelNewTimer(d).C }
+func ModelTick(d time.Duration) <-chan time.Time  { return ModelNewTicker(d).C }
